@@ -417,6 +417,9 @@ def helper_shape(h):
   body = _strip_doc(h.node.body)
   if not body:
     return None
+  # a decorated helper (lru_cache, a property builder, contextmanager ...) is not its body: it is never inlined
+  if any(norm(d_).split('(')[0].split('.')[-1] not in ('staticmethod', 'classmethod') for d_ in getattr(h.node, 'decorator_list', [])):
+    return None
   a = h.node.args
   if a.vararg or a.kwarg:
     return None
